@@ -181,7 +181,7 @@ def run(chk: Check, replay=None):
     so = str(engines.build_native())
     fjm_run = engines.setup(so_path=so)
     chk.assumptions += [
-        "StlSem.tla is a transcription of the documentation lines of the hex macros; operands of one call are distinct variables",
+        "StlSem.tla is a transcription of the documentation lines of the hex macros; operands of one call are distinct variables, except in the blocks named with [..] (hex.mul[res=a]: in-place call, KF-10)",
         "behaviours start from the library's rest state (the hidden cells snapshotted right after the init macros)",
     ]
     if quick:
